@@ -18,6 +18,12 @@ def _loads_in(e, out):
     if e and e[0] == "load":
         out[e[3]] = e
         return
+    if e and e[0] in ("asm", "rmw") and isinstance(e[-1], int):
+        out[e[-1]] = e      # value returned by an atomic exchange / RMW: a variable like a load
+        return
+    if e and e[0] == "cmpxchg":
+        out[e[2]] = e
+        return
     for x in e[1:]:
         if isinstance(x, tuple):
             _loads_in(x, out)
@@ -70,6 +76,15 @@ def ev(e, env):
         return e
     if k == "load":
         return env.get(e[3])
+    if k in ("asm", "rmw"):
+        return env.get(e[-1])
+    if k == "cmpxchg":
+        return env.get(e[2])
+    if k == "bin" and e[1] == "xor" and e[3] == ("c", -1):
+        v = ev(e[2], env)
+        if v in (("c", 0), ("c", 1)):
+            return ("c", 1 - v[1])
+        return None
     if k == "select":
         c = truth(e[1], env)
         if c is None:
@@ -120,16 +135,15 @@ def table(f, extra=None):
     cases = paths.ret_cases(f)
     if not cases:
         raise Broken("%s: no return case" % f.name)
-    dom = _collect_domains([atoms for _p, atoms, _v in cases])
+    dom = _collect_domains([list(atoms) + ([v] if v is not None else []) for _p, atoms, v in cases])
     lids = sorted(dom, key=lambda l: (0, l[1]) if isinstance(l, tuple) else (1, l))
     if extra is not None:
         # refine with the constant classes of the specification (a function that no longer distinguishes a class the
         # specification distinguishes must still be evaluated on it)
-        if len(extra) != len(lids):
-            raise Broken("%s: %d decision variables, specification has %d" % (f.name, len(lids), len(extra)))
-        for l, ks in zip(lids, extra):
-            for k in ks:
-                dom[l].add(("c", k))
+        for l, ks in extra.items():
+            if l in dom:
+                for k in ks:
+                    dom[l].add(("c", k))
     doms = [sorted(dom[l], key=str) + [(OTHER, l)] for l in lids]
     out = {}
     for asg in itertools.product(*doms):
@@ -150,6 +164,8 @@ def table(f, extra=None):
                 rets.add(None)
             elif v[0] == "load":
                 rets.add(("load", v[3]))
+            elif v[0] in ("asm", "rmw") and isinstance(v[-1], int) and v[-1] in env:
+                rets.add(("load", v[-1]))
             else:
                 r = ev(v, env)
                 rets.add(r if r is not None else ("?", ir.expr_str(v)))
@@ -183,8 +199,27 @@ def normalized(f, extra=None):
         if r[0] == "arg":
             return "ARG%d" % r[1]
         return str(r)
+    # assertion guards: a variable for which exactly one class ever leads to a return only says "anything else aborts";
+    # it is projected away so that compiling assertions in or out does not change the table
+    keep = list(range(len(lids)))
+    rows = dict(t)
+    changed = True
+    while changed:
+        changed = False
+        for col in list(keep):
+            k = keep.index(col)
+            live = set(asg[k] for asg, rets in rows.items() if rets)
+            allc = set(asg[k] for asg in rows)
+            if len(live) == 1 and len(allc) > 1:
+                only = next(iter(live))
+                rows = {asg[:k] + asg[k + 1:]: rets for asg, rets in rows.items() if asg[k] == only}
+                keep.remove(col)
+                changed = True
+                break
+    lids = [lids[c] for c in keep]
+    pos = {l: k for k, l in enumerate(lids)}
     out = {}
-    for asg, rets in t.items():
+    for asg, rets in rows.items():
         out[tuple(ncls(c) for c in asg)] = frozenset(nres(r) for r in rets)
     return lids, out
 
@@ -193,7 +228,10 @@ def compare(rep, rule, inst, f, expected, what):
     """expected: {class tuple: set of outcomes}.  Shape mismatch (different variables) => Broken (inconclusive)."""
     rep.touch(f)
     nvar = len(next(iter(expected)))
-    extra = [sorted(set(k[i] for k in expected if isinstance(k[i], int))) for i in range(nvar)]
+    lids0, _ = normalized(f)          # first pass: which variables survive the projection of assertion guards
+    if len(lids0) != nvar:
+        raise Broken("%s: %s has %d decision variables, specification has %d: table not comparable" % (inst, f.name, len(lids0), nvar))
+    extra = {lids0[i]: sorted(set(k[i] for k in expected if isinstance(k[i], int))) for i in range(nvar)}
     lids, got = normalized(f, extra)
     if set(got) != set(expected):
         raise Broken("%s: decision variables of %s changed (%d cases, expected %d): table not comparable" % (inst, f.name, len(got), len(expected)))
